@@ -15,6 +15,8 @@ pub mod h_locks;
 pub mod h_dm;
 #[cfg(feature = "xml")]
 pub mod h_xml;
+#[cfg(feature = "xml")]
+pub mod h_inv;
 
 pub use vnd::*;
 
@@ -31,5 +33,7 @@ pub fn run_harness(name: &str) -> bool {
     if h_dm::run(name) { return true; }
     #[cfg(feature = "xml")]
     if h_xml::run(name) { return true; }
+    #[cfg(feature = "xml")]
+    if h_inv::run(name) { return true; }
     false
 }
